@@ -32,6 +32,8 @@ def archetypes():
     # peers that offer a measurable algorithm but never yield a measurement: a size left behind by an earlier target would show on them
     a['gex-refused'] = dict(banner=b'SSH-2.0-Srv_2', kex=['diffie-hellman-group-exchange-sha256', 'diffie-hellman-group-exchange-sha1', 'curve25519-sha256'], key=['ssh-ed25519'], enc=['aes256-ctr'], mac=['hmac-sha2-256'], hostkeys={b'ssh-ed25519': ED}, gex=lambda mn, pf, mx: None)
     a['rsa-unprobed'] = dict(banner=b'SSH-2.0-OpenSSH_7.4', kex=['curve25519-sha256'], key=['rsa-sha2-512', 'ssh-rsa', 'ssh-ed25519-cert-v01@openssh.com'], enc=['aes256-ctr'], mac=['hmac-sha2-256'], hostkeys={})
+    # an SSH-1-only peer whose SSH-1 side is broken: the tool's automatic retry fails inside the worker
+    a['ssh1-retry-broken'] = dict(behaviour=P.Ssh1OnlyBroken('badcrc'))
     a['unknown-algs'] = dict(banner=b'SSH-2.0-Weird_0.1', kex=['curve25519-sha256', 'made-up-kex'], key=['ssh-ed25519'], enc=['aes256-ctr', 'made-up-cbc'], mac=['hmac-sha2-256', 'made-up-etm@openssh.com'], hostkeys={b'ssh-ed25519': ED})
     return a
 
@@ -120,7 +122,7 @@ def run(ctx):
     combos = list(itertools.permutations(names, 2))
     if q:
         combos = rng.sample(combos, 14)
-        combos += [c for c in (('small-gex', 'gex-refused'), ('openssh-2048', 'gex-refused'), ('small-rsa', 'rsa-unprobed'), ('small-ca', 'rsa-unprobed'), ('terrapin-enc', 'clean')) if c not in combos]
+        combos += [c for c in (('ssh1-retry-broken', 'clean'), ('small-rsa', 'ssh1-retry-broken', 'terrapin-mac'), ('small-gex', 'gex-refused'), ('openssh-2048', 'gex-refused'), ('small-rsa', 'rsa-unprobed'), ('small-ca', 'rsa-unprobed'), ('terrapin-enc', 'clean')) if c not in combos]
     else:
         combos = combos + rng.sample(list(itertools.permutations(names, 3)), 120)
     tmp = tempfile.mkdtemp(prefix='verif_c07_')
@@ -128,7 +130,7 @@ def run(ctx):
         # one long-lived server per archetype instance; single-target baselines first
         servers = {}
         for n in names:
-            servers[n] = P.new_ssh2_server(dict(arch[n]), stall_limit=3.0)
+            servers[n] = P.Server(arch[n]['behaviour'], stall_limit=3.0) if 'behaviour' in arch[n] else P.new_ssh2_server(dict(arch[n]), stall_limit=3.0)
         polfile = os.path.join(tmp, 'pol.txt')
         with open(polfile, 'w') as f:
             f.write('name = "p"\nversion = 1\nkey exchanges = curve25519-sha256\nciphers = aes256-ctr\nmacs = hmac-sha2-256\nhost keys = ssh-ed25519\n')
@@ -185,9 +187,14 @@ def run(ctx):
                 for b in blocks:
                     m = re.search(r'(?:\(gen\) target: |Host:\s+)127\.0\.0\.1:(\d+)', canon.strip_ansi(b))
                     if m: by_port[int(m.group(1))] = b
+                unassigned = [b for b in blocks if b not in by_port.values()]
                 for n in c['combo']:
                     b = by_port.get(servers[n].port)
                     want = strip_target(base[(n, mode)]['out'])
+                    if b is None:    # a block without a target line (an error before the report header): attribute it by content
+                        b = next((u for u in unassigned if strip_target(u) == want), None)
+                        if b is not None:
+                            unassigned.remove(b)
                     if b is None or strip_target(b) != want:
                         gotl = strip_target(b or '')
                         diff = [l for l in gotl if l not in want][:3] + ['MISSING: ' + l for l in want if l not in gotl][:3]
